@@ -254,7 +254,11 @@ func (cx *Ctx) oracleArgs(rs []JobResult) (bool, string, string, string) {
 					ci = i
 				}
 				c := r.Job.Calls[ci]
-				return true, "argument-mutated | " + normDetail(o.ArgsMutated),
+				what := "edge list"
+				if strings.HasPrefix(o.ArgsMutated, "size map") {
+					what = "size map"
+				}
+				return true, "argument-mutated | " + what,
 					fmt.Sprintf("Layout(%s; %s) modified its caller-owned arguments: %s", edgesText(c.Edges), optsText(c.Opts), o.ArgsMutated),
 					fpOf(o.ArgsMutated)
 			}
